@@ -6,6 +6,7 @@ import (
 	"fmt"
 	"sort"
 
+	"github.com/nspcc-dev/neo-go/pkg/core/native"
 	"github.com/nspcc-dev/neo-go/pkg/core/native/nativehashes"
 	"github.com/nspcc-dev/neo-go/pkg/core/native/noderoles"
 	"github.com/nspcc-dev/neo-go/pkg/core/transaction"
@@ -39,11 +40,14 @@ const (
 	OpClaim
 	OpFromValidator
 	OpAttrTx
+	// (new kinds are appended here: the numbers are part of stored plans)
+	OpOracleRequest
+	OpOracleResponse
 	numOps
 )
 
 var opNames = [...]string{"transferGAS", "transferNEO", "vote", "register", "unregister", "policy", "designate",
-	"deploy", "invoke", "update", "destroy", "payContract", "notary", "claim", "fromValidator", "attrTx"}
+	"deploy", "invoke", "update", "destroy", "payContract", "notary", "claim", "fromValidator", "attrTx", "oracleRequest", "oracleResponse"}
 
 // Op is one generated transaction.
 type Op struct {
@@ -83,7 +87,7 @@ func drawOpMix(rt *rapid.T, p2psig bool, mix int) Op {
 			o.X = 6 + rapid.IntRange(0, 1).Draw(rt, "wl2")
 		}
 	case 2:
-		o.Kind = []int{OpDeploy, OpInvoke, OpInvoke, OpInvoke, OpUpdate, OpDestroy, OpPayContract}[rapid.IntRange(0, 6).Draw(rt, "lc")]
+		o.Kind = []int{OpDeploy, OpInvoke, OpInvoke, OpInvoke, OpUpdate, OpDestroy, OpPayContract, OpOracleRequest, OpOracleResponse}[rapid.IntRange(0, 8).Draw(rt, "lc")]
 	case 3:
 		o.Kind = []int{OpVote, OpVote, OpRegister, OpUnregister, OpTransferNEO}[rapid.IntRange(0, 4).Draw(rt, "gv")]
 	}
@@ -93,7 +97,7 @@ func drawOpMix(rt *rapid.T, p2psig bool, mix int) Op {
 func drawOpGeneral(rt *rapid.T, p2psig bool) Op {
 	o := Op{}
 	// weights: storage-heavy and governance ops are the interesting ones
-	w := rapid.IntRange(0, 39).Draw(rt, "opk")
+	w := rapid.IntRange(0, 42).Draw(rt, "opk")
 	switch {
 	case w < 4:
 		o.Kind = OpTransferGAS
@@ -125,8 +129,13 @@ func drawOpGeneral(rt *rapid.T, p2psig bool) Op {
 		o.Kind = OpClaim
 	case w < 39:
 		o.Kind = OpFromValidator
-	default:
+	case w < 40:
 		o.Kind = OpAttrTx
+	case w < 41:
+		o.Kind = OpOracleRequest
+	default:
+		// (a response needs a pending request and designated nodes: drawn more often than requests, most are not applicable)
+		o.Kind = OpOracleResponse
 	}
 	o.A = rapid.IntRange(0, numAccounts-1).Draw(rt, "a")
 	o.B = rapid.IntRange(0, numAccounts-1).Draw(rt, "b")
@@ -241,6 +250,8 @@ type producer struct {
 	txLog   []util.Uint256 // every transaction hash put on chain
 	dropped map[string]int
 	vcache  map[[2]byte]*kContract
+	ora     oraState       // pending oracle requests (oracle.go)
+	probes  map[string]int // the run's probe counters (may be nil)
 }
 
 func newProducer(n *Node) *producer {
@@ -408,6 +419,12 @@ func (p *producer) buildTx(o Op, extraAttrs []transaction.Attribute) (tx *transa
 			script = callScript(nativehashes.PolicyContract, "unblockAccount", p.kr.acctHash(o.B))
 			desc = fmt.Sprintf("unblockAccount a%d", o.B%numAccounts)
 		case 5:
+			if o.Y%4 == 3 {
+				price := []int64{1000_0000, 7000_0000, native.DefaultOracleRequestPrice, 1}[o.N%4]
+				script = callScript(nativehashes.OracleContract, "setPrice", price)
+				desc = fmt.Sprintf("Oracle.setPrice %d", price)
+				break
+			}
 			script = callScript(nativehashes.ContractManagement, "setMinimumDeploymentFee", (5+o.N%10)*100000000)
 			desc = fmt.Sprintf("setMinimumDeploymentFee %d", 5+o.N%10)
 		}
@@ -525,6 +542,10 @@ func (p *producer) buildTx(o Op, extraAttrs []transaction.Attribute) (tx *transa
 		signers = []neotest.Signer{v}
 		script = callScript(nativehashes.GasToken, "transfer", v.ScriptHash(), p.kr.acctHash(o.B), o.N*1000000, nil)
 		desc = fmt.Sprintf("validators->a%d %d GAS", o.B%numAccounts, o.N)
+	case OpOracleRequest:
+		script, desc = p.oracleRequestScript(o)
+	case OpOracleResponse:
+		return p.oracleResponseTx(o)
 	case OpAttrTx:
 		script = callScript(nativehashes.GasToken, "transfer", a.ScriptHash(), p.kr.acctHash(o.B), o.N, nil)
 		switch o.X % 3 {
